@@ -129,6 +129,29 @@ def make_obj(ex, cls_key, name="self", assume_invariant=True):
     return o
 
 
+def assume_hint(ex, text, env, line, where):
+    """A hint in a contract is either an INSTANCE OF A LEMMA that is registered (and therefore
+    proved by induction in engine P on the same run): assumed; or any other formula: then it is an
+    intermediate assertion - proved here with what is known, and only then used."""
+    tree = ast.parse(text.strip(), mode="eval").body
+    lemma_preds = {l["pred"] for l in getattr(ex.w, "lemmas", {}).values()}
+    g = ex.to_bool(ex.ev(tree, env))
+    def lemma_instance(t):
+        # lem(...), implies(<guard>, <lemma instance>), <lemma instance> and <lemma instance>
+        if isinstance(t, ast.Call) and isinstance(t.func, ast.Name):
+            if t.func.id in lemma_preds:
+                return True
+            if t.func.id == "implies" and len(t.args) == 2:
+                return lemma_instance(t.args[1])
+        if isinstance(t, ast.BoolOp) and isinstance(t.op, ast.And):
+            return all(lemma_instance(v) for v in t.values)
+        return False
+    is_lemma = lemma_instance(tree)
+    if not is_lemma:
+        ex.oblige("inv", f"{where}:assert", g, line, note=text)
+    ex.assume(g)
+
+
 def eval_spec_expr(ex, text, env):
     """Evaluate a contract expression (Python expression text) with the executor."""
     tree = ast.parse(text.strip(), mode="eval").body
@@ -249,12 +272,28 @@ def apply_contract(ex, key, self_obj, args, kw, line):
             result.attrs[attr] = bound[pname]
     env = contract_env(ex, c, bound, self_obj, old_self, result)
     env.update(ghost)
+    # module variables in the callee's frame: unknown new value, `old_glob` in its postconditions
+    # means the value just before this call
+    gl_pre = {}
+    for m_ in c.get("modifies", []):
+        if m_.startswith("global."):
+            gn = m_[7:]
+            cm = ex.contract.get("modifies", [])
+            if "*" not in cm and m_ not in cm:
+                ex.oblige_trivial("frame", f"write:{m_} (through {name})", False, line,
+                                  note=f"{name} writes the module variable {gn}, which is not in "
+                                       "this function's frame")
+            gl_pre[gn] = ex.global_value(gn, {})
+            ex.ctx.globals_now[gn] = Z(ex.fresh(f"global.{gn}'", gl_pre[gn].t.sort()))
+    saved_ov = getattr(ex.ctx, "globals_old_override", None)
+    ex.ctx.globals_old_override = gl_pre
     ex.assuming = getattr(ex, "assuming", 0) + 1
     try:
         for e_ in c.get("ensures", []):
             ex.assume(ex.to_bool(eval_spec_expr(ex, e_, env)))
     finally:
         ex.assuming -= 1
+        ex.ctx.globals_old_override = saved_ov
     if "result_is" in c:
         v = eval_spec_expr(ex, c["result_is"], env)
         set_fresh(v, fr)
@@ -612,7 +651,7 @@ def run_one_path(ex, c, fnode, is_method, res):
     bound.update({p: env[p] for p in c.get("ghost", {})})
     cenv = contract_env(ex, c, bound, self_obj, old_self)
     for r in c.get("lemma_instances", []):
-        ex.assume(ex.to_bool(eval_spec_expr(ex, r, cenv)))
+        assume_hint(ex, r, cenv, getattr(fnode, "lineno", None), "entry")
     if not ex.feasible(z3.BoolVal(True)):
         raise symex.PathPruned()
     line_end = getattr(fnode, "end_lineno", None)
